@@ -667,18 +667,20 @@ func exec(r *harness.Run) *harness.Violation {
 			if p.DeferredPoints[id] {
 				continue
 			}
-			if i > 0 && e.text == got[i-1].text && len(p.RepanicPoints) > 0 {
-				// A recovered value panicked again by a `panic(r)` statement:
-				// the position is the one of that statement.
+			if len(p.RepanicPoints) > 0 {
+				// A recovered value panicked again by a `panic(r)` statement
+				// is located at that statement, wherever it stands in the
+				// chain (an earlier re-panic, recovered by a caller, may still
+				// be in progress): such a position is accepted for any value.
 				fileIdx := 0
 				if e.path == skel.FileOf(1000) || e.path == pkgOf(1000) {
 					fileIdx = 1
 				}
-				if !p.RepanicPoints[fileIdx*1000+e.line] {
-					return harness.Violf(cls("wrong-position"), "%s: panic %q, raised again after being recovered, reports %s:%d, which is not a `panic(r)` statement", ctx, e.text, e.path, e.line)
+				if p.RepanicPoints[fileIdx*1000+e.line] {
+					continue
 				}
-				continue
 			}
+			_ = i
 			// For programs Scriggo reports the package path ("main", "m/sub1"),
 			// which identifies the file as well as its name does (one file
 			// per package): both are accepted.
